@@ -454,6 +454,25 @@ Section Fib.
         intros i t [Heq|Hi] Hit; [discriminate | eauto].
   Qed.
 
+  (** after the loop every root is recorded under its degree: the degrees are pairwise distinct *)
+  Lemma seen_all_distinct (ring : iring) tab :
+    NoDup (ids ring) -> seen ring tab (length ring) ->
+    NoDup (map (fun it => ft_degree K V (snd it)) ring).
+  Proof.
+    intros Hnd Hseen. apply NoDup_nth_error. intros i j Hi Heq.
+    rewrite map_length in Hi. rewrite !nth_error_map in Heq.
+    destruct (nth_error ring i) as [[a t]|] eqn:Ei; [|apply nth_error_None in Ei; lia].
+    destruct (nth_error ring j) as [[a' t']|] eqn:Ej; [|discriminate].
+    simpl in Heq. injection Heq as Hdeg.
+    pose proof (Hseen i a t Hi Ei) as H1.
+    assert (Hj : j < length ring) by (apply nth_error_Some; rewrite Ej; discriminate).
+    pose proof (Hseen j a' t' Hj Ej) as H2.
+    rewrite Hdeg in H1. rewrite H1 in H2. injection H2 as <-.
+    apply (proj1 (NoDup_nth_error (ids ring)) Hnd).
+    - unfold ids. now rewrite map_length.
+    - now rewrite (nth_error_ids _ _ _ _ Ei), (nth_error_ids _ _ _ _ Ej).
+  Qed.
+
   Definition head_min (ring : list ftree) : Prop :=
     match ring with
     | [] => True
@@ -471,7 +490,8 @@ Section Fib.
   Lemma f_consolidate_ok n ring :
     ring <> [] -> Forall fgood ring -> length (fentries ring) = n ->
     exists ring', f_consolidate K V cmp n ring = Ok ring' /\ Forall fgood ring' /\
-                  Permutation (fentries ring') (fentries ring) /\ head_min ring' /\ ring' <> [].
+                  Permutation (fentries ring') (fentries ring) /\ head_min ring' /\ ring' <> [] /\
+                  NoDup (map (ft_degree K V) ring').
   Proof.
     intros Hne Hgood Hn. unfold f_consolidate.
     set (m := length ring).
@@ -504,7 +524,8 @@ Section Fib.
     rewrite Hfold. simpl bind.
     destruct (r_rotate_head _ _ _ (in_r_find _ _ _ Hnd Hin)) as (rest & Hrot).
     pose proof (r_rotate_perm e (c_ring K V s)) as Hperm.
-    eexists. split; [reflexivity|]. rewrite Hrot in *. split; [|split; [|split]].
+    pose proof (seen_all_distinct _ _ Hnd Hseen) as Hdist.
+    eexists. split; [reflexivity|]. rewrite Hrot in *. split; [|split; [|split; [|split]]].
     - eapply Permutation_Forall; [symmetry; apply (trees_perm _ _ Hperm) | exact (cc_good _ _ _ _ _ C)].
     - fold (trees ((e, et) :: rest)). rewrite (fentries_perm _ _ (trees_perm _ _ Hperm)).
       exact (cc_bag _ _ _ _ _ C).
@@ -516,6 +537,9 @@ Section Fib.
       apply (Hall i t); [|exact Hit].
       eapply nth_error_In, Hseen; [|exact Hj]. apply nth_error_Some. rewrite Hj. discriminate.
     - discriminate.
+    - eapply Permutation_NoDup; [|exact Hdist].
+      fold (trees ((e, et) :: rest)). unfold trees. rewrite !map_map.
+      symmetry. apply Permutation_map. exact Hperm.
   Qed.
 
   (** * invariant and abstraction of the heap *)
@@ -639,13 +663,34 @@ Section Fib.
       + eexists _, _. split; [reflexivity|]. split.
         * repeat split; simpl; auto.
         * unfold fbag. rewrite Er. simpl f_ring. constructor; [exact Hbag | exact Hext].
-      + destruct (f_consolidate_ok (f_n K V h - 1) (a :: r1')) as (ring' & Hc & Hg' & Hp' & Hm' & Hne');
+      + destruct (f_consolidate_ok (f_n K V h - 1) (a :: r1')) as (ring' & Hc & Hg' & Hp' & Hm' & Hne' & _);
           [discriminate | exact Hg1 | now rewrite Hn1 |].
         rewrite Hc. simpl bind.
         eexists _, _. split; [reflexivity|]. split.
         * repeat split; simpl; auto. now rewrite (Permutation_length Hp').
         * unfold fbag. rewrite Er. simpl f_ring. constructor; [|exact Hext].
           rewrite Hp'. exact Hbag.
+  Qed.
+
+  (** a Delete leaves at most one root per degree *)
+  Lemma f_delete_consolidates h h' e :
+    finv h -> f_delete K V cmp h = Ok (h', Some e) -> NoDup (map (ft_degree K V) (f_ring K V h')).
+  Proof.
+    intros (Hg & Hn & Hm) H. unfold f_delete in H.
+    destruct (f_ring K V h) as [|x rest] eqn:Er; [discriminate|].
+    inversion Hg as [|? ? Hgx Hgrest]; subst.
+    pose proof (f_meld_perm rest (ft_children K V x)) as Hp1.
+    assert (Hg1 : Forall fgood (f_meld K V rest (ft_children K V x))).
+    { eapply Permutation_Forall; [symmetry; exact Hp1|]. apply Forall_app; split; auto.
+      now apply fgood_children. }
+    destruct (f_meld K V rest (ft_children K V x)) as [|a r1'] eqn:E1.
+    - injection H as <- _. simpl. constructor.
+    - destruct (f_consolidate_ok (length (fentries (a :: r1'))) (a :: r1')) as (ring' & Hc & _ & _ & _ & _ & Hd);
+        [discriminate | exact Hg1 | reflexivity |].
+      assert (Hlen : f_n K V h - 1 = length (fentries (a :: r1'))).
+      { rewrite Hn, (Permutation_length (fentries_perm _ _ Hp1)), fentries_app.
+        destruct x as [k v d cs]. simpl. unfold fentries. rewrite !app_length. simpl. lia. }
+      rewrite Hlen, Hc in H. simpl in H. injection H as <- _. simpl. exact Hd.
   Qed.
 
   Lemma f_act_ok h a :
